@@ -145,9 +145,12 @@ pub fn kill_network(node_registry: &NodeRegistry, keep_directories: bool) -> Res
     if let Some(faucet) = &node_registry.faucet {
         // If we're here, the faucet was spun up. However, it's possible for the process to have
         // died since then. In that case, we don't need to do anything.
-        // I think the use of `unwrap` is justified here, because for a local network, if the
-        // faucet is not `None`, the pid also must have a value.
-        if let Some(process) = system.process(Pid::from(faucet.pid.unwrap() as usize)) {
+        // The registry is a file: a faucet entry without a pid (never started, or edited) has no
+        // process to kill either.
+        if let Some(process) = faucet
+            .pid
+            .and_then(|pid| system.process(Pid::from(pid as usize)))
+        {
             process.kill();
             debug!("Faucet has been killed");
             println!("{} Killed faucet", "✓".green());
